@@ -160,3 +160,9 @@ V('C11', 'short-name-index-all-overloads', T,
         for prefix in prefixes:
             refs.update(idx.get(prefix, ()))
 ''', None)
+
+# round 5: the stored seeded breaks this property's check reports, replayed as variants
+from sa.selftest import VP  # noqa
+VP('C11', 'C11-e1', 'C11.R14', 'type-ref-recorded')
+VP('C11', 'C11-e2', 'C11.R14', 'every-param-type')
+VP('C11', 'C11-e3', 'C11.R13', 'writes-ancestors')
